@@ -172,6 +172,27 @@ def execute(darsia, ctx, key):
             warnings.simplefilter("ignore")
             with np.errstate(all="ignore"):
                 return np.array([ctx[ck](a, b)])
+    if name == "W1S":          # W1S|method|budget|pair : ONE solver object per method; the caller changes budget / tolerances in
+        # its options between calls; the call returns distance AND status (both are part of the result of that call)
+        method, budget, idx = op[1], op[2], int(op[3])
+        ck = ("W1S", method)
+        if ck not in ctx:
+            live = {"verbose": False, "return_status": True, "L": 1.0 if method != "newton" else 1e-2, "formulation": "pressure", "linear_solver": "direct"}
+            cls = darsia.WassersteinDistanceNewton if method == "newton" else darsia.WassersteinDistanceBregman
+            ctx[ck] = (cls(darsia.Grid((4, 3), [0.5, 0.5]), None, live), live)
+        obj, live = ctx[ck]
+        for k_ in ("tol_residual", "tol_increment", "tol_distance"):
+            live.pop(k_, None)
+        if budget == "easy":
+            live["num_iter"] = 12                      # default tolerances: met as soon as the stopping test is evaluated
+        else:
+            live.update(num_iter=3, tol_residual=1e-14, tol_increment=1e-14, tol_distance=1e-14)     # cannot be met
+        a, b = _pair(darsia, idx)
+        with warnings.catch_warnings():
+            warnings.simplefilter("ignore")
+            with np.errstate(all="ignore"):
+                d, status = obj(a, b)
+        return np.array([float(d), 1.0 if status else 0.0])
     if name == "AA":           # AA|scale : Anderson-accelerated fixed-point iteration over restart boundaries
         aa = ctx.setdefault("AA", darsia.AndersonAcceleration(dimension=None, depth=2, restart=3))
         c = float(op[1])
@@ -207,6 +228,8 @@ ALPHABET = {
     "bregman-cg-multilevel": ["W1|bregman|cgml|0", "W1|bregman|cgml|1"],
     "bregman-adaptive": ["W1|adaptive|direct|0", "W1|adaptive|direct|1", "W1|adaptive|direct|9"],
     "anderson": ["AA|1.0", "AA|2.0", "AA|0.0"],
+    "newton-status": ["W1S|newton|easy|0", "W1S|newton|tight|1", "W1S|newton|tight|0"],
+    "bregman-status": ["W1S|bregman|easy|0", "W1S|bregman|tight|1", "W1S|bregman|tight|0"],
 }
 
 
